@@ -80,11 +80,17 @@ class EvalMixin:
                 yield st2, SV(DisplayDict, list(zip(ks, vs)))
     def ev_ListComp(self, node, st):
         """[f(x) for x in lst]  (one generator, no condition, pure element expression)"""
-        if len(node.generators) != 1 or node.generators[0].ifs or not isinstance(node.generators[0].target, ast.Name):
+        if len(node.generators) != 1:
             raise VCError("list comprehension form (line %d)" % node.lineno)
         g = node.generators[0]
         for st1, seq in self.ev(g.iter, st):
             seq = self.unwrap_opt(st1, seq, node, "iteration-over-None")
+            if seq.ty == Display:
+                # literal tuple / list / *args: unrolled element by element, one path per outcome of the filters
+                yield from self.listcomp_display(node, g, st1, seq.t, 0, [])
+                continue
+            if g.ifs or not isinstance(g.target, ast.Name):
+                raise VCError("list comprehension form (line %d)" % node.lineno)
             if not isinstance(seq.ty, T.List): raise VCError("list comprehension over %s" % seq.ty)
             i = fresh("lc_i", T.Int)
             mark = fresh_mark()
@@ -119,6 +125,45 @@ class EvalMixin:
             if subst: body = z3.substitute(body, *subst)
             st1.assume(z3.ForAll([i], z3.Implies(z3.And(i >= 0, i < n), body), patterns=[T.list_arr(rty, res)[i]]))
             yield st1, SV(rty, res)
+
+    def listcomp_display(self, node, g, st, elems, k, acc):
+        if k == len(elems):
+            st.env = {n: v for n, v in st.env.items() if not n.startswith("%lc%")}
+            yield st, SV(Display, list(acc)); return
+        s1 = st.fork(); s1.env = dict(st.env)
+        saved = {}
+        def bind(tgt, v):
+            if isinstance(tgt, ast.Name):
+                saved.setdefault(tgt.id, s1.env.get(tgt.id)); s1.env[tgt.id] = v
+            elif isinstance(tgt, (ast.Tuple, ast.List)) and v.ty == Display and len(v.t) == len(tgt.elts):
+                for t2, v2 in zip(tgt.elts, v.t): bind(t2, v2)
+            else: raise VCError("list comprehension target (line %d)" % node.lineno)
+        bind(g.target, elems[k])
+        def restore(s):
+            s.env = dict(s.env)
+            for n, v in saved.items():
+                if v is None: s.env.pop(n, None)
+                else: s.env[n] = v
+            return s
+        def conds(j, s):
+            if j == len(g.ifs):
+                yield s, True; return
+            for s2, c in self.ev(g.ifs[j], s):
+                b = z3.simplify(self.truth(c))
+                if not z3.is_false(b):
+                    sa = s2.fork(); sa.assume(b)
+                    if z3.is_true(b) or self.maybe(s2, b):
+                        yield from conds(j + 1, sa)
+                if not z3.is_true(b):
+                    sb = s2.fork(); sb.assume(z3.Not(b))
+                    if z3.is_false(b) or self.maybe(s2, z3.Not(b)):
+                        yield sb, False
+        for s2, keep in conds(0, s1):
+            if keep:
+                for s3, v in self.ev(node.elt, s2):
+                    yield from self.listcomp_display(node, g, restore(s3), elems, k + 1, acc + [v])
+            else:
+                yield from self.listcomp_display(node, g, restore(s2), elems, k + 1, acc)
 
     def ev_Lambda(self, node, st):
         yield st, SV(PyFunc, ("lambda", node))
@@ -211,6 +256,8 @@ class EvalMixin:
             if isinstance(a.ty, T.List) or isinstance(b.ty, T.List):
                 lt = a.ty if isinstance(a.ty, T.List) else b.ty
                 return self.list_concat(st, self.coerce(a, lt), self.coerce(b, lt))
+        if isinstance(a.ty, T.Opt) and a.ty.t in num: a = self.unwrap_opt(st, a, node, "order-compare-with-None")
+        if isinstance(b.ty, T.Opt) and b.ty.t in num: b = self.unwrap_opt(st, b, node, "order-compare-with-None")
         if a.ty in num and b.ty in num:
             if a.ty != b.ty: a, b = self.coerce(a, T.Real), self.coerce(b, T.Real)
             if isinstance(op, ast.Add): return SV(a.ty, a.t + b.t)
@@ -255,6 +302,8 @@ class EvalMixin:
         num = (T.Int, T.Real)
         if a.ty == T.Card and not self.spec:
             self.oblige(st, T.card_is_int(a.t), "order-compare-on-str-cardinality", node); a = SV(T.Int, T.card_n(a.t))
+        if isinstance(a.ty, T.Opt) and a.ty.t in num: a = self.unwrap_opt(st, a, node, "order-compare-with-None")
+        if isinstance(b.ty, T.Opt) and b.ty.t in num: b = self.unwrap_opt(st, b, node, "order-compare-with-None")
         if a.ty in num and b.ty in num:
             if a.ty != b.ty: a, b = self.coerce(a, T.Real), self.coerce(b, T.Real)
             if isinstance(op, ast.Lt): return a.t < b.t
